@@ -1232,9 +1232,29 @@ def check_C10(run):
                 continue
             name = "%s#%d" % (t, sp["execno"])
             how = exits.get(name)
+            bg_here = any(e[0] == "bgspawn" and e[1] == name + "~bg" for e in inv.trace)
+            if how is not None and how[0] == "sigterm" and st.op.get("signal") and not bg_here \
+                    and sp["io"]["out"] in ("pipe", "file"):
+                # the run was interrupted and the task terminated: its logs hold what it had written by then
+                full_out, full_err = I.expected_streams(st.op, t, sp["execno"], with_bg=False)
+                n_out = sum(e[3] for e in inv.trace if e[0] == "cwrote" and e[1] == name and e[2] == "out")
+                n_err = sum(e[3] for e in inv.trace if e[0] == "cwrote" and e[1] == name and e[2] == "err")
+                rel = os.path.relpath(sp["env"]["COND_OUT"], os.path.join(root, "cond-out"))
+                mode = "teed" if sp["io"]["out"] == "pipe" else "logged"
+                for fname, data in (("stdout.log", full_out[:n_out]), ("stderr.log", full_err[:n_err])):
+                    got = tree.get(rel + "/" + fname)
+                    if got is None:
+                        if data:
+                            V.append(Violation("C10", "log-file-missing-after-interrupt (%s)" % mode, {"task": t, "file": fname}, i))
+                    elif got[0] != "f" or got[1] != I.sha(data):
+                        V.append(Violation("C10", "log-file-of-interrupted-task-lacks-bytes-it-wrote (%s)" % mode,
+                                           {"task": t, "file": fname, "size": got[2] if got[0] == "f" else None,
+                                            "written": len(data)}, i))
+                bump("interrupted_execution_logs_compared")
+                facts["nontrivial"].append("interrupted-" + mode)
+                continue
             if how is None or how[0] not in ("exit", "sig"):
                 continue
-            bg_here = any(e[0] == "bgspawn" and e[1] == name + "~bg" for e in inv.trace)
             exp_out, exp_err = I.expected_streams(st.op, t, sp["execno"], with_bg=bg_here)
             rel = os.path.relpath(sp["env"]["COND_OUT"], os.path.join(root, "cond-out"))
             mode = "teed" if sp["io"]["out"] == "pipe" else ("logged" if sp["io"]["out"] == "file" else sp["io"]["out"])
@@ -1247,6 +1267,12 @@ def check_C10(run):
                     V.append(Violation("C10", "%s (%s)" % (what, mode),
                                        {"task": t, "file": fname, "size": got[2] if got[0] == "f" else None,
                                         "expected_size": len(data)}, i))
+            interrupted = bool(st.op.get("signal")) and any(e[0] == "sigsent" for e in inv.trace)
+            if interrupted:
+                # the command was aborted: forwarding and the argument records of an execution whose
+                # completion had not been processed yet are not owed; its log files (above) are
+                facts["nontrivial"].append("interrupted-finished-" + mode)
+                continue
             if mode == "teed":
                 teed_err += exp_err
                 # forwarded to Conductor's own stdout between the task's status lines
